@@ -145,6 +145,22 @@ specs["C12"] = {"property": "C12", "explanation": AUX_EXPL, "assumptions": COMMO
     "sink failure model = return values of the recorder.Recorder interface; the real CPTVFileRecorder's write-after-close nil dereference is tied to the protocol violation by the C12 wiring job in package main (when present)",
     "a redundant StopRecording on a closed sink is not counted as a violation (the statement restricts writes and starts)"],
     "outside_claim": MP_OUT[:4] + ["ring capacities above the grid", "faults inside go-cptv (I/O)"], "stubs_doc": MP_STUBS, "jobs": aux_jobs(1) + aux_jobs(0)[:2]}
+# C04 also quantifies over storage outcomes: the "no start while a recording is open / start iff the
+# condition holds" obligations are additionally decided under arbitrary start/write/stop faults (AUX harness)
+def _c04_fault_jobs():
+    out = []
+    for j in aux_jobs(1):
+        if j["name"] == "step_faults":
+            j = dict(j); j["name"] = "faults_step"; j["grid"] = {"N": [1, 2], "CR": [0], "FAULTS": [1]}; j["grid_thorough"] = {"N": [1, 2, 3, 4], "CR": [0], "FAULTS": [1]}
+            out.append(j)
+        elif j["name"] == "bmc_faults":
+            j = dict(j); j["name"] = "faults_bmc"; j["grid"] = dict(j["grid"]); j["grid"]["CR"] = [0]; j["grid_thorough"] = dict(j["grid_thorough"]); j["grid_thorough"]["CR"] = [0]
+            out.append(j)
+    return out
+specs["C04"]["jobs"] = specs["C04"]["jobs"] + _c04_fault_jobs()
+specs["C04"]["outside_claim"] = [x for x in MP_OUT if not x.startswith("write/stop faults")] + ["consequences of write/stop faults other than the start condition and the sink protocol (C12)"]
+specs["C04"]["explanation"] = MP_EXPL + " (3) For C04 the start condition and 'no start while a recording is open' are also decided under arbitrary failures of every start, k-th write, stop and disk check of the sink (AUX step lemma and BMC, FAULTS=1)."
+
 specs["C17"] = {"property": "C17", "explanation": AUX_EXPL + " For C17 the no-fault, no-bad-frame instances are used: the continuous sink receives every accepted frame exactly once in order, a file is closed exactly when it holds max-secs*fps+1 frames, independent of motion bit, window gate, disk check and resets; a pending request starts a test recording with the next processed frame, which is closed after exactly 21 frames (induction on snapshotFrames); the C01-C04 assertions on the motion sink hold for every test-recording state (ZZ_MP_step is proved for arbitrary StartSnapshot/SnapshotRecording in the C01 check).",
     "assumptions": COMMON_ASSUME + ["non-overlapping test-recording requests, no storage faults, no bad frames (the property's quantifier)", "throttling independence: the continuous sink is handed to NewMotionProcessor unwrapped (wiring job in package main, when present)"],
     "outside_claim": MP_OUT[:4] + ["deleteExcessRecordings / statfs (I/O)", "SetAsConstantRecorder directory handling (I/O)"], "stubs_doc": MP_STUBS, "jobs": aux_jobs(0)}
